@@ -37,6 +37,10 @@ def percent_spec(rng, form, n, pool, over=False):
         kw = rng.choice(WKW if form == "wt%" else VKW) if (i == 0 or rng.random() < 0.3) else "%"
         parts.append({"f": rng.choice(pool), "qs": qs, "q": qv(qs), "kw": kw})
     parts.append({"f": rng.choice(pool)})
+    if n >= 3 and not over and rng.random() < 0.12:
+        k = rng.randrange(n - 1)              # a percentage of zero, written as a decimal
+        budget += parts[k]["q"]
+        parts[k]["qs"], parts[k]["q"] = rng.choice(ZEROS), 0.0
     shape = rng.random()
     if not over and n == 2 and shape < 0.3:
         # very unequal: the remainder left to the last component is tiny but not nothing
@@ -62,12 +66,28 @@ def abs_spec(rng, n, allow_vol=True):
             f = rng.choice(WITH_DENS)
         qs = rng.choice(QS)
         parts.append({"f": f, "qs": qs, "q": qv(qs), "unit": unit, "gap": rng.choice(["", " "])})
+    zero_one(rng, parts)
     return {"form": "abs", "parts": parts}
 
 
+ZEROS = ["0.0", "0.", ".0", "0.00"]
+
+
+def zero_one(rng, parts):
+    """now and then one component (never the only one) is given a quantity of zero, written as a decimal: it vanishes.
+    (A zero *volume* of a compound without density is left out: its mass is not defined by the notation.)"""
+    if len(parts) >= 2 and rng.random() < 0.15:
+        p = rng.choice(parts)
+        if p.get("unit") in VOLU and p["f"] not in WITH_DENS:
+            return
+        p["qs"], p["q"] = rng.choice(ZEROS), 0.0
+
+
 def layer_spec(rng, n):
-    return {"form": "layer", "parts": [{"f": rng.choice(WITH_DENS), "qs": q, "q": qv(q), "unit": rng.choice(LENU), "gap": rng.choice([" ", ""])}
-                                       for q in [rng.choice(QS) for _ in range(n)]]}
+    parts = [{"f": rng.choice(WITH_DENS), "qs": q, "q": qv(q), "unit": rng.choice(LENU), "gap": rng.choice([" ", ""])}
+             for q in [rng.choice(QS) for _ in range(n)]]
+    zero_one(rng, parts)
+    return {"form": "layer", "parts": parts}
 
 
 def tasks(ctx, quick):
@@ -143,6 +163,9 @@ def tasks(ctx, quick):
             sub = abs_spec(rng, 2)
             if i % 2:
                 sub["parts"][0].update(unit=rng.choice(VOLU), f=rng.choice(WITH_DENS))
+            for sp in sub["parts"]:         # (a volume of something without density has no mass: checked on its own, not inside a group)
+                if sp["unit"] in VOLU and sp["f"] not in WITH_DENS:
+                    sp["f"] = rng.choice(WITH_DENS)
             add({"kind": "mixstr", "spec": sub})
             k = rng.randrange(len(spec["parts"]) - (1 if form == "wt%" else 0))
             if form == "abs":
